@@ -30,7 +30,7 @@ ASSUMPTIONS = [
     "heartbeat requests with padding < 16 are silently ignored (RFC 6520)",
 ]
 NONTRIVIAL = ["cell", "neg"]
-DEADLINE = {"quick": 70, "thorough": 900}
+DEADLINE = {"quick": 90, "thorough": 900}
 
 
 def hkdf_expand_label(secret, label, ctx_hash, length, hname):
